@@ -73,10 +73,16 @@ def sym_stream_setup(vc):
     def thunk(it):
         func, evs, file = open_stream(it, 'path')
         names = effect_names(evs)
-        check(it, 'setup-trace-is-makedirs-then-open', names == ['os.makedirs', 'open'])
+        check(it, 'setup-is-ensure-directory-then-open', [n for n in names if n != 'os.makedirs'] == ['open'] and names[-1:] == ['open'])
         op = calls(evs, target='open')
         if op:
             path, mode = op[0].objs
+            import pyvc.loader as L
+            dn = z3.Function('os.path.dirname', StrS, StrS)
+            mkb = calls(evs[:evs.index(op[0])], target='os.makedirs')
+            active = z3.Concat(file.t, z3.StringVal('.active'))
+            check(it, 'directory-of-the-active-file-ensured-before-open',
+                  z3.Or(L.FS_ISDIR(dn(active)), *[term(e.objs[0], StrS) == dn(active) for e in mkb]))
             check(it, 'opens-the-active-name-for-writing', z3.And(term(path, StrS) == z3.Concat(file.t, z3.StringVal('.active')),
                                                                   z3.BoolVal(mode == 'w')))
     vc.explore(fk, thunk)
@@ -232,6 +238,10 @@ def sym_checkpoint(vc):
         name, base = sym_str(it, 'cpname'), sym_str(it, 'cppath')
         s1, s2 = ufunc('step1'), ufunc('step2')
         cp = it.call(CP, [name], dict(checkpoint_path=base))
+        # the same checkpoint object may be run again (a Flow object run in a loop, retried by a scheduler): whatever its
+        # methods may have cached on it earlier is arbitrary
+        from contracts.common import havoc_mutable_scalars
+        havoc_mutable_scalars(it, cp, containers=True, memo_none=True)
         r = it.call(it.lib.getattr_(it, cp, 'handle_flow_checkpoint'), [PyList([s1, s2])])
         check(it, 'swallows-parent-links-returns-itself', isinstance(r, PyList) and len(r.items) == 1 and r.items[0] is cp)
         n0 = len(it.path.events)
@@ -259,17 +269,29 @@ def sym_checkpoint(vc):
             cover(it, 'resume-reachable')
         else:
             check(it, 'save-only-if-final-absent', z3.Not(exists))
-            parts = getattr(chain, 'parts', None)
-            ok = parts is not None and len(parts) == 2
-            check(it, 'save-chain-shape', ok)
-            if ok:
-                first, tail = parts
-                fparts = getattr(first, 'parts', None)
-                check(it, 'save-chain-starts-with-the-swallowed-steps', fparts is not None and len(fparts) == 2 and
-                      isinstance(fparts[1], PyList) and fparts[1].items == [s1, s2])
-                check(it, 'save-chain-ends-with-writer-and-notify', isinstance(tail, tuple) and len(tail) == 2 and
-                      isinstance(tail[0], FuncDefV) and 'stream' in tail[0].qualname and fn_named(tail[0], 'func') and
-                      isinstance(tail[1], FuncDefV) and fn_named(tail[1], 'step'))
+            def flat(x):
+                if isinstance(x, (tuple, list)):
+                    return [z for y in x for z in flat(y)]
+                if isinstance(x, PyList):
+                    return [z for y in x.items for z in flat(y)]
+                if hasattr(x, 'parts'):
+                    return [z for y in x.parts for z in flat(y)]
+                return [x]
+            links = flat(chain)
+            check(it, 'save-chain-is-the-swallowed-steps-once-then-writer-and-notify', len(links) == 4 and links[0] is s1
+                  and links[1] is s2 and isinstance(links[2], FuncDefV) and 'stream' in links[2].qualname
+                  and fn_named(links[2], 'func') and isinstance(links[3], FuncDefV) and fn_named(links[3], 'step'))
+            # the same checkpoint object chained again (the flow object is run a second time and the file is still / again
+            # absent): the chain is rebuilt from the links handed over THIS time -- nothing accumulates from the first run
+            r2 = it.call(it.lib.getattr_(it, cp, 'handle_flow_checkpoint'), [PyList([s1, s2])])
+            chain2 = it.call(it.lib.getattr_(it, cp, '_preprocess_chain'), [])
+            if isinstance(chain2, tuple):
+                check(it, 'second-chaining-takes-the-same-branch', False)
+            else:
+                links2 = flat(chain2)
+                check(it, 'second-chaining-of-the-same-object-gives-the-same-chain', len(links2) == 4 and links2[0] is s1
+                      and links2[1] is s2 and isinstance(links2[2], FuncDefV) and fn_named(links2[2], 'func')
+                      and isinstance(links2[3], FuncDefV) and fn_named(links2[3], 'step'))
             if len(opens) == 1:
                 check(it, 'save-writes-under-the-active-name', z3.And(
                     term(opens[0].objs[0], StrS) == z3.Concat(final, z3.StringVal('.active')), _b(opens[0].objs[1] == 'w')))
@@ -390,6 +412,10 @@ def sym_printer(vc):
                     check(it, 'row-contents-untouched' + tag, same_row(ys[0].value, before))
                 check(it, 'row-never-written' + tag, not [e for e in events if e.kind in ('RowWrite', 'RowUpdate', 'RowDelete',
                                                                                          'RowMapLoop') and e.obj is row])
+                # what is reported must be the row as it ENTERED: the printer may keep formatted copies, never the live row
+                # object that later steps are free to edit in place
+                from contracts.common import retained_in
+                check(it, 'no-live-row-kept-past-its-yield' + tag, not retained_in(env, row))
                 check(it, 'nothing-printed-mid-stream' + tag, not calls(events, target='header_print') and
                       not calls(events, target='table_print'))
                 check(it, 'no-buffering' + tag, not [e for e in events if e.kind == 'Drain'])
@@ -445,10 +471,11 @@ def sym_finalizer(vc):
                 else:
                     check(it, 'no-argument-for-a-plain-callback', len(c[0].args) == 0)
             cover(it, 'reachable[stats=%s]' % with_stats)
-        paths = vc.explore(fk, thunk, min_paths=1)
+        # the consumer may stop, or the base iterator may raise, while rows are being delegated: the callback must not have
+        # fired on any such path ("exactly once, AFTER the last row has passed")
+        paths = vc.explore(fk, thunk, min_paths=2, explore_abandon=True)
         expect_no_raise_or_same(vc, fk, paths)
-    vc.assume_note('finalizer: `yield from base` delegates to the base iterator; if the consumer abandons or the base raises, the '
-                   'statement after it (the callback) is not reached (Python semantics of yield from, T1)')
+        check_no_commit_on_incomplete(vc, fk, paths, ('callback',), 'finalizer[stats=%s]' % with_stats)
 
 
 # ------------------------------------------------------------------------------------------------ base class
